@@ -135,7 +135,11 @@ pub fn run(cfg: &Cfg, out: &mut Out) {
     // (0x01, 0x80, 0xFF, 0x7F) directly before it; with and without a second nul behind
     {
         let lens: &[usize] = if cfg.thorough { &[7, 8, 9, 15, 16, 17, 31, 32, 33, 47, 63, 64, 65, 96, 127, 128, 129] } else { &[8, 16, 31, 32, 33, 64, 65, 96] };
-        for &len in lens {
+        let mut lens: Vec<usize> = lens.to_vec();
+        if huge() {
+            lens.extend([256usize, 1025]);
+        }
+        for &len in &lens {
             for fill in [b'a', 0x01u8, 0x80] {
                 let base = vec![fill; len];
                 case(out, &base);
